@@ -511,7 +511,13 @@ def factorize_2d(
 
     if sort:
         argsort = multi_index.argsort()
-        combined_codes = np.argsort(argsort)[combined_codes]
+        if len(argsort):
+            # the null code stays the null code
+            combined_codes = np.where(
+                combined_codes < 0,
+                -1,
+                np.argsort(argsort)[np.maximum(combined_codes, 0)],
+            )
         multi_index = multi_index[argsort]
 
     return combined_codes, multi_index
